@@ -623,6 +623,16 @@ def C13(tier, rng):
         # the encoder treats equal names as interchangeable targets: octets may change only in ASCII case
         if a:
             cs.append(enc_case(names_msg([a, flip, (b'p',) + flip, other]), 'compress-eq'))
+    # equal names (ASCII case variants) are INTERCHANGEABLE compression targets: the second question's name must be a bare
+    # pointer to the first one's, whichever spelling comes first
+    for n in ((b'example', b'org'), (b'Www', b'Example', b'ORG'), (b'a',), (b'MiXeD', b'x1-y', b'z')):
+        variants = [n, tuple(l.upper() for l in n), tuple(l.lower() for l in n), tuple(l.swapcase() for l in n)]
+        for v1 in variants:
+            for v2 in variants:
+                m = msg_with([], qs=[{'name': v1, 'qtype': 1, 'qclass': 1}, {'name': v2, 'qtype': 1, 'qclass': 1}])
+                cs.append(Case('enc.dns %s' % pmsg(m), 'interchangeable', exp=abs_msg_text(m)))
+                m2 = msg_with([{'ty': 2, 'name': v1, 'ttl': 0, 'cls': 1, 'f': [(b'ns',) + v2]}])
+                cs.append(Case('enc.dns %s' % pmsg(m2), 'interchangeable-suffix', exp=abs_msg_text(m2)))
     for pair in look_alike_name_pairs():
         cs.append(Case('text.eq %s %s' % (pname(pair[0]), pname(pair[1])), 'eq-look-alike'))
         cs.append(enc_case(names_msg_a(pair), 'compress-look-alike'))
